@@ -12,7 +12,7 @@ from vf.common import now
 
 PROPERTY = "C13"
 WORKERS = {"quick": 16, "thorough": 16}
-TIME = {"quick": 60, "thorough": 1200}
+TIME = {"quick": 60, "thorough": 240}
 BOX = {"quick": dict(nmax=6, bound=8, cn=4, cb=6), "thorough": dict(nmax=8, bound=10, cn=6, cb=9)}
 EXHAUSTIVE = "every (n, chunking of n, slice) with n<=nmax, start/stop in {None} U [-bound,bound], step in {None,+-1,+-2,+-3} (quick: nmax=6,bound=8; thorough: nmax=8,bound=10), all ordered pairs of such slices for _compose_slices (quick n<=4,bound 6; thorough n<=6,bound 9) and of non-negative slices/ints for fuse_slice"
 TECHNIQUE = "runtime contracts (icontract postconditions with brute-force range() references) on the real slice helpers, driven exhaustively over a small box and randomly beyond it, and left active while real indexing programs run"
